@@ -279,4 +279,33 @@ def opcode_position_codes():
         out.append(("target", b, b"\x5b" + pushes + ins + b"\x56" + b"\x5b\x00"))
         out.append(("condition", b, b"\x5b" + pushes + ins + b"\x60\x00" + b"\x57" + b"\x5b\x00"))
         out.append(("entry-stack", b, ins + b"\x56\x5b\x00"))
+        # as the second (deeper) operand of the target expression: sub(5, ins(...)), and with a sibling
+        # on each side: addmod(7, ins(...), <next stack item>)
+        out.append(("second-operand", b, b"\x5b" + pushes + ins + b"\x60\x05\x03\x56" + b"\x5b\x00"))
+        out.append(("middle-operand", b, b"\x5b" + pushes + ins + b"\x60\x07\x08\x56" + b"\x5b\x00"))
+    return out
+
+
+def systematic_codes():
+    """every combination of exit kind x condition kind x target kind over a fixed three-block skeleton:
+    block A (the exit under test), the block that follows it (jumpdest-headed or not), one more
+    jumpdest-headed block further on.  Returns (name, code)."""
+    out = []
+    conds = {"c0": push(0), "c1": push(1), "cbig": push(1 << 255, 32), "csym": b"\x34", "centry": b""}
+    for follow_jd in (True, False):
+        follow = (b"\x5b" if follow_jd else b"\x58\x50") + b"\x00"
+        far = b"\x5b\x00"
+        for exitk in ("jump", "jumpi"):
+            for cname, cbytes in (conds.items() if exitk == "jumpi" else [("-", b"")]):
+                for tname in ("next", "far", "mid-block", "beyond", "sym", "entry"):
+                    # two passes: the target constants depend on the length of block A
+                    a_len = 0
+                    for _ in range(3):
+                        next_off = a_len
+                        far_off = a_len + len(follow)
+                        tgt = {"next": push(next_off, 2), "far": push(far_off, 2), "mid-block": push(next_off + 1, 2),
+                               "beyond": push(far_off + 40, 2), "sym": push(0) + b"\x35", "entry": b""}[tname]
+                        a = (cbytes if exitk == "jumpi" else b"") + tgt + (b"\x57" if exitk == "jumpi" else b"\x56")
+                        a_len = len(a)
+                    out.append((f"sys-{exitk}-{cname}-{tname}-{'jd' if follow_jd else 'plain'}", a + follow + far))
     return out
